@@ -17,6 +17,7 @@ import (
 	"strings"
 	"sync"
 	"sync/atomic"
+	"time"
 
 	"storj.io/drpc"
 	"storj.io/drpc/drpcconn"
@@ -194,6 +195,13 @@ func whoReports() string {
 
 var offerHook atomic.Pointer[func()]
 
+type offerFailT struct {
+	role string // "c": the client's NewClientStream, "s": the server's NewServerStream
+	do   func()
+}
+
+var offerFail atomic.Pointer[offerFailT]
+
 func init() {
 	drpcdebug.SetEventHook(func(obj interface{}, name string, id uint64) {
 		key := fmt.Sprintf("%p", obj)
@@ -201,6 +209,25 @@ func init() {
 		if name == "stream.new.offer" {
 			if f := offerHook.Swap(nil); f != nil {
 				(*f)() // ocancel: something happens exactly between the publication of a new stream and its hand-off
+			}
+			if of := offerFail.Load(); of != nil && strings.HasPrefix(who, of.role) && offerFail.CompareAndSwap(of, nil) {
+				// ofail: the transport of this endpoint breaks here, and the hand-off goes on only after
+				// this manager has reported its termination (or 2 s)
+				of.do()
+				for i := 0; i < 20000; i++ {
+					evMu.Lock()
+					done := false
+					for _, e := range evTraces[key] {
+						if e == "term:0" {
+							done = true
+						}
+					}
+					evMu.Unlock()
+					if done {
+						break
+					}
+					time.Sleep(100 * time.Microsecond)
+				}
 			}
 		}
 		evMu.Lock()
@@ -249,6 +276,8 @@ func TakeEventsWho() [][]string {
 }
 
 func NewWorld(cfg Config) *World {
+	offerHook.Store(nil)
+	offerFail.Store(nil)
 	ResetEvents()
 	w := &World{D: director.New(), Cfg: cfg, streams: map[int]drpc.Stream{}, ctxs: map[int]context.CancelFunc{},
 		ctxv: map[int]context.Context{}, seen: map[string]bool{}, enc: &sm.Enc{}}
@@ -468,6 +497,17 @@ func (w *World) Do(act string) string {
 		cancel := w.ctxs[id]
 		fn := func() { cancel() }
 		offerHook.Store(&fn)
+	case "ofail": // ofail!end : that end's transport breaks when its manager is about to hand its next stream to
+		// manageStreams, and the hand-off goes on only after that manager has reported its termination
+		e := w.end(f[1])
+		role := "c"
+		if f[1] == "B" {
+			role = "s"
+		}
+		offerFail.Store(&offerFailT{role: role, do: func() {
+			e.FailWrite(ErrInjected)
+			e.FailRead(ErrInjected)
+		}})
 	case "mspark": // the next manageStream parks in front of its select (released by prel!@mgr)
 		w.mu.Lock()
 		w.msArm = true
